@@ -29,7 +29,6 @@ ASSUMPTIONS = ["clang's macro-expanded AST of the working tree's C file is the c
                "failure psutil_net_if_addrs' error path would pass an uninitialised pointer to freeifaddrs()"]
 NOT_COVERED = ["whole-extension memory safety beyond the functions under contract: bounded ASan+UBSan grid over every "
                "mod_methods entry (argument grid) and generated utmp / mounts files, not proved",
-               "psutil_net_if_flags (3^20 paths): sanitizer grid only",
                "'agree with the kernel's interface list, addresses, MTU and flags': both sides are the kernel; only the "
                "decoding is within a contract's reach",
                "_pslinux.users/disk_partitions/net_if_stats loops: unrolled for record lists of length <= 2 with arbitrary "
@@ -237,6 +236,9 @@ C_CONTRACTS = [
                   note="getifaddrs() list walk: tuple slots per node; ownership on every error path (psutil_convert_ipaddr "
                        "applied through its own contract: NULL+exception / None / new object)"),
     cvc.CContract("C17", "psutil/_psutil_posix.c", "append_flag", filt="flag", params=flag_params),
+    cvc.CContract("C17", "psutil/_psutil_posix.c", "psutil_net_if_flags", filt="flag", merge=True,
+                  note="20 independent `if (flags & X) append_flag(...)` steps: path merging where the step leaves the state "
+                       "unchanged (55 paths instead of 3^20)"),
     cvc.CContract("C17", "psutil/_psutil_posix.c", "psutil_net_if_mtu", note="PSUTIL_STRNCPY stays inside ifr_name[16]"),
     cvc.CContract("C17", "psutil/_psutil_posix.c", "psutil_net_if_is_running"),
     cvc.CContract("C17", "psutil/arch/linux/net.c", "psutil_net_if_duplex_speed", filt="psutil_", post=post_speed,
@@ -259,6 +261,26 @@ C_CONTRACTS = [
     cvc.CContract("C17", "psutil/arch/linux/mem.c", "psutil_linux_sysinfo"),
 ]
 CPROOFS = C_CONTRACTS
+
+
+def table_entry_points():
+    """every function registered in the two mod_methods tables is under a C contract"""
+    import os
+    import re
+    repo = os.environ.get("VERIF_REPO", "/repo")
+    have = {c.func for c in C_CONTRACTS}
+    out = []
+    for f in ("psutil/_psutil_linux.c", "psutil/_psutil_posix.c"):
+        txt = open(os.path.join(repo, f)).read()
+        # Linux build: drop the BSD/OSX-only block of the posix table
+        txt = re.sub(r"#if defined\(PSUTIL_BSD\) \|\| defined\(PSUTIL_OSX\)\n(.*?)#endif", "", txt, flags=re.S)
+        for m in re.finditer(r'\{"(\w+)",\s*(\w+),\s*METH_VARARGS', txt):
+            out.append((f"{f}: entry point '{m.group(1)}' -> {m.group(2)} is under a C contract", m.group(2) in have,
+                        "add a CContract for it in contracts/C17.py"))
+    return out
+
+
+TABLES = [table_entry_points]
 
 
 # =================================================================================================================
